@@ -243,12 +243,13 @@ def linearisable(log, queued_ids):
             new_queue = queue + (jid,) if kind == 'add' else (jid,) + queue
             if search(index, open_ops - {op}, *activate(new_queue, active)):
                 return True
-        if active is None and queue:
-            # the completion callback of the previous job runs the next one
-            if search(index, open_ops, *activate(queue, active)):
+        if isinstance(active, tuple):
+            # the completion callback of the finished job takes effect: the
+            # slot is free and the head of the queue, if any, is started
+            if search(index, open_ops, *activate(queue, None)):
                 return True
         if index == len(events):
-            return not open_ops
+            return not open_ops and not queue
         event = events[index]
         if event[0] == 'call':
             op = (event[1], event[2][0], event[2][1])
@@ -264,7 +265,9 @@ def linearisable(log, queued_ids):
         if event[0] == 'end':
             if active != event[1]:
                 return False
-            return search(index + 1, open_ops, queue, None)
+            # finished, but the controller still counts it as active until
+            # its completion callback has run
+            return search(index + 1, open_ops, queue, ('finishing', event[1]))
         return False
     return search(0, frozenset(), (), None)
 
@@ -410,7 +413,7 @@ def enumerate_fixed(acc, index, part, parts, depth):
 
 def plan(tier, seed_value):
     specs = []
-    per = 2500 if tier == 'thorough' else 90
+    per = 2500 if tier == 'thorough' else 400
     for k in range(16):
         specs.append({'kind': 'random', 'seed': seed_value * 1000 + k,
                       'examples': per})
